@@ -92,6 +92,8 @@ func handle(p []string) (res string) {
 		return opJsonEnc(p[1:])
 	case "T", "A", "Y":
 		return "def"
+	case "marshalm":
+		return opMarshal(p[1:])
 	case "marshal":
 		return opMarshal(p[1:])
 	case "unmarshal":
